@@ -10,6 +10,7 @@ use crate::tokenizer::Tokenizer;
 use std::sync::{Arc, Mutex};
 
 pub use crate::descriptor::DescriptorManager;
+pub use crate::parser::Literal;
 
 /// (kind, text, start, end) of every token up to EOF or the first tokenizer error;
 /// the flag is true when EOF was reached.
